@@ -6,7 +6,7 @@ import itertools
 from hypothesis import strategies as st
 
 from apischema import serialize
-from apischema.json_schema import deserialization_schema, serialization_schema
+from apischema.json_schema import definitions_schema, deserialization_schema, serialization_schema
 
 from vlib import build
 from vlib.gen import chance, pick
@@ -20,7 +20,7 @@ RULE = ("Bounded-exhaustive: every dataclass of 1-3 (quick) / 1-4 (thorough) ele
         "order([permutation])} and, for n >= 2, a one-level inheritance split with overrides on the base class alone and in conflict with "
         "an override of the same field on the subclass (the most derived one wins, MRO); Hypothesis adds 5-6 element classes.  Oracle: an "
         "independent validity predicate of the documented rule over the key sequence of serialize, of `properties` in "
-        "serialization_schema and (restricted to fields) in deserialization_schema, and of the GraphQL object type: the sequence is a "
+        "serialization_schema, of the definition merged from both directions by definitions_schema, (restricted to fields) in deserialization_schema, and of the GraphQL object type: the sequence is a "
         "permutation of the declared elements; un-attached elements are in ascending (order value, declaration index); every "
         "after/before element is on the right/left of its target and each element's attachment cluster is contiguous; all views agree.  "
         "Non-trivial: >= 1 after/before spec and >= 2 distinct order values (or a class-level override).  Distinct = the program.")
@@ -298,6 +298,11 @@ def _evaluate(case, ctx, b, src):
         ctx.violation({"kind": "crash", "exc": type(e).__name__}, case, f"{e!r}\n{src}")
         return
     try:
+        both = definitions_schema(deserialization=[C], serialization=[C], all_refs=True)
+        views["definitions_both_directions"] = [idx[x] for x in both["C"].get("properties", {})]
+    except Exception as e:
+        ctx.h("definitions_both_directions_unavailable:" + type(e).__name__)
+    try:
         views["graphql"] = graphql_order(b, C, idx)
     except Exception as e:
         ctx.h("graphql_view_unavailable:" + type(e).__name__)
@@ -315,7 +320,7 @@ def _evaluate(case, ctx, b, src):
                 sig["target_is_method"] = True
             ctx.violation(sig, case, f"{bad[1]}\nnames {nm}\n{src}")
     if "serialize" in views:
-        for view in ("serialization_schema", "graphql"):
+        for view in ("serialization_schema", "graphql", "definitions_both_directions"):
             restricted = [e for e in views["serialize"] if view != "graphql" or e in gql_elts]
             if view in views and views[view] != restricted and (view != "graphql" or case.get("resolver") or
                                                                 check_sequence(views[view], gql_elts, specs)):
